@@ -57,8 +57,17 @@ type c20Env struct {
 	bg       []chan struct{}
 }
 
+// The versions differ in how a line ends: by running off the end of the program, in a final
+// `stop`, or in a `stop` in the trailing else branch of a condition no line meets.
 func c20Prog(k int) string {
-	return fmt.Sprintf("gauge g\ncounter n\n/^(\\d+)$/ {\n  g = $1\n  n++\n}\n# version %d\n", k)
+	tail := ""
+	switch k % 3 {
+	case 1:
+		tail = "stop\n"
+	case 2:
+		tail = "/^never$/ {\n} else {\n  stop\n}\n"
+	}
+	return fmt.Sprintf("gauge g\ncounter n\n/^(\\d+)$/ {\n  g = $1\n  n++\n}\n%s# version %d\n", tail, k)
 }
 
 func (e *c20Env) hook(v *vm.VM, l *logline.LogLine) {
